@@ -167,24 +167,28 @@ def rule_e(F):
             raise AnchorMissing("match in PartialEq for %s" % ty)
         n = 0
         for a in m["arms"]:
-            p = a["pat"]
             body = hir_strip(a["body"])
             is_false = body.get("k") == "lit" and body["lit"].get("v") is False
-            if p.get("k") == "tuple" and len(p["pats"]) == 2:
-                l = [x[0].rsplit("::", 1)[-1] for x in pat_variants(p["pats"][0])]
-                r = [x[0].rsplit("::", 1)[-1] for x in pat_variants(p["pats"][1])]
-                n += 1
-                key = "C19/E/%s/(%s,%s)" % (tname, "|".join(l), "|".join(r))
-                if is_false or l == r:
-                    res.append(ok("C19.E", key, f.loc(a.get("ln")), "same-kind arm" if l == r else "answers false"))
-                else:
-                    res.append(bad("C19.E", key, f.loc(a.get("ln")), "eq can answer true for a (%s, %s) pair but there is no mirrored arm: equality is not symmetric" % (l, r)))
-            elif p.get("k") == "wild":
-                key = "C19/E/%s/otherwise" % tname
-                if is_false:
-                    res.append(ok("C19.E", key, f.loc(a.get("ln")), "all mixed-kind pairs are unequal"))
-                else:
-                    res.append(bad("C19.E", key, f.loc(a.get("ln")), "the catch-all arm of eq does not answer false"))
+            alts = a["pat"]["pats"] if a["pat"].get("k") == "or" else [a["pat"]]
+            for p in alts:
+                if p.get("k") == "tuple" and len(p["pats"]) == 2:
+                    l = [x[0].rsplit("::", 1)[-1] for x in pat_variants(p["pats"][0])]
+                    r = [x[0].rsplit("::", 1)[-1] for x in pat_variants(p["pats"][1])]
+                    n += 1
+                    key = "C19/E/%s/(%s,%s)" % (tname, "|".join(l), "|".join(r))
+                    if is_false or l == r:
+                        res.append(ok("C19.E", key, f.loc(a.get("ln")), "same-kind arm" if l == r else "answers false"))
+                    else:
+                        res.append(bad("C19.E", key, f.loc(a.get("ln")),
+                                       "eq can answer true for a (%s, %s) pair, but Hash for %s feeds each kind to the hasher in its own "
+                                       "representation: two values that compare equal hash differently (a row stored under one is not found "
+                                       "under the other), and a comparison through a lossy conversion is not transitive" % (l, r, tname)))
+                elif p.get("k") == "wild":
+                    key = "C19/E/%s/otherwise" % tname
+                    if is_false:
+                        res.append(ok("C19.E", key, f.loc(a.get("ln")), "all mixed-kind pairs are unequal"))
+                    else:
+                        res.append(bad("C19.E", key, f.loc(a.get("ln")), "the catch-all arm of eq does not answer false"))
         if n < 2:
             raise AnchorMissing("tuple arms in PartialEq for %s" % ty)
     return res
